@@ -572,3 +572,30 @@ Proof.
   assert (L : plit [44] (44 :: blanks b ++ rest) = Some (Ok tt, blanks b ++ rest)) by reflexivity.
   rewrite L, S2. reflexivity.
 Qed.
+
+(* ---- references without display name ---- *)
+(* delimiters other than the blank (a blank followed by a quoted string would be read as the display name) *)
+Definition delim_ns (r : str) : Prop := r = [] \/ exists c r', r = c :: r' /\ In c [44; 10; 13; 93; 125; 62].
+
+Lemma p_ref_plain name rest : Forall (fun c => is_zref_char c = true) name -> delim_ns rest ->
+  p_ref (64 :: name ++ rest) = Some (Ok (VRef name None), rest).
+Proof.
+  intros Hn Hd. unfold p_ref, pthen, pmap, pand. 
+  assert (L : plit [64] (64 :: name ++ rest) = Some (Ok tt, name ++ rest)) by reflexivity. rewrite L.
+  unfold pspan. rewrite (span_all is_zref_char name rest Hn).
+  - unfold popt, pthen, pmap, pand.
+    assert (P : plit [32] rest = None).
+    { destruct Hd as [E|[c [r' [E Hc]]]]; subst; [reflexivity|]. cbn [In] in Hc. repeat (destruct Hc as [Hc|Hc]; [subst c; reflexivity|]). contradiction. }
+    rewrite P. reflexivity.
+  - destruct Hd as [E|[c [r' [E Hc]]]]; subst; [exact I|]. cbn [In] in Hc. repeat (destruct Hc as [Hc|Hc]; [subst c; reflexivity|]). contradiction.
+Qed.
+
+Lemma scalar_ref_plain f v3 name rest : Forall (fun c => is_zref_char c = true) name -> delim_ns rest ->
+  p_scalar (S f) v3 (64 :: name ++ rest) = Some (Ok (VRef name None), rest).
+Proof.
+  intros Hn Hd. pose proof (p_ref_plain name rest Hn Hd) as R.
+  destruct (date_letters 64 (name ++ rest) eq_refl) as [D1 [D2 D3]].
+  cbn [p_scalar]. destruct v3; cbv zeta; unfold scalars_2_0, por.
+  - apply por_pick_take; [exact R|]. repeat (apply Forall_cons; [first [exact D1 | exact D2 | exact D3 | reflexivity]|]). apply Forall_nil.
+  - apply por_pick_take; [exact R|]. repeat (apply Forall_cons; [first [exact D1 | exact D2 | exact D3 | reflexivity]|]). apply Forall_nil.
+Qed.
